@@ -27,7 +27,7 @@ import traceback
 import sfc_models.equation_solver
 from sfc_models.equation import EquationBlock, Equation
 from sfc_models.equation_parser import EquationParser
-from sfc_models.utils import Logger, LogicError
+from sfc_models.utils import Logger, LogicError, replace_token_from_lookup
 
 
 class EconomicObject(object):
@@ -370,6 +370,11 @@ class Model(EconomicObject):
             lookup[alias] = sector.GetVariableName(varname)
         for sector in self.GetSectors():
             sector._ReplaceAliases(lookup)
+        # Aliases may also have been embedded in model-level equations and in exogenous definitions.
+        self.GlobalVariables = [(var, replace_token_from_lookup(eqn, lookup), desc)
+                                for var, eqn, desc in self.GlobalVariables]
+        self.Exogenous = [(code, var, replace_token_from_lookup(val, lookup))
+                          for code, var, val in self.Exogenous]
 
     def LogInfo(self, generate_full_codes=True, ex=None):  # pragma: no cover
         """
